@@ -1558,6 +1558,31 @@ fn record(outp: &str, results: &str) {
         }
         strings.push(("mutated".into(), b));
     }
+    // quoting packets: SCMP errors of every kind whose quote is one of the valid packets (SCION/UDP, SCION/SCMP, ...),
+    // quote cut at a random prefix, outer buffer cut at a random length, optionally one mutated byte inside the quote
+    let n_quote = if thorough { 30000 } else { 2500 };
+    for _ in 0..n_quote {
+        let st = *rng.pick(&[1u8, 2, 4, 5, 6]);
+        let fixed = match st { 5 => 20usize, 6 => 28, _ => 8 };
+        let inner = rng.pick(&valid).clone();
+        let q = match rng.below(4) { 0 => inner.len(), _ => rng.below(inner.len() as u64 + 1) as usize };
+        let mut b = vec![0x0c, 0, 0, 1, 202, 9];
+        b.extend(((fixed + q) as u16).to_be_bytes());
+        b.extend([0, 0, 0, 0]);
+        b.extend(rng.bytes(24));
+        b.push(st);
+        b.extend(rng.bytes(fixed - 1));
+        b.extend_from_slice(&inner[..q]);
+        if q > 0 && rng.chance(1, 3) {
+            let i = 36 + fixed + rng.below(q.min(48) as u64) as usize;
+            b[i] = rng.below(256) as u8;
+        }
+        if rng.chance(1, 2) {
+            let cut = 36 + rng.below((b.len() - 36) as u64 + 1) as usize;
+            b.truncate(cut);
+        }
+        strings.push(("quoting".into(), b));
+    }
     // shaped strings: random segment-length triples over the whole 2^18 space, random address nibbles, consistent
     // or off-by-one HdrLen, cut at a random sub-extent boundary (+-1)
     let n_shaped = if thorough { 40000 } else { 1500 };
